@@ -392,9 +392,9 @@ Print Assumptions C03_f10e_repaired.
 
 (* History-level soundness of the current code (all five reader repairs on): stated, NOT proved.  Nothing refutes it any
    more: F10, its nested variant and F10e are repaired (the three _repaired theorems above), and the thorough tier of this
-   check finds no unjustified event on the patched observer.  Its sequential instance is proved (C03_sound_sequential:
-   block-wise histories of the class ops_x1); what is left are the interleavings - bursts of operations before a read,
-   partial reads, the pairing delay. *)
+   check finds no unjustified event on the patched observer.  Its sequential instance is proved, also on the Pipeline model
+   (C03_sound_pipeline_sequential: block histories of the class ops_x3 from pinit); what is left are the interleavings -
+   bursts of operations before a read, partial reads, the pairing delay not elapsed between read and emit. *)
 Definition C03_sound_full_current : Prop :=
   forall P w s0 h, pc_filter P = None -> c_mask (pc_reader P) = WATCHDOG_ALL ->
     c_fix_ignored (pc_reader P) = true -> c_fix_movein (pc_reader P) = true -> c_fix_simulate (pc_reader P) = true ->
